@@ -1499,7 +1499,7 @@ func (w *world) stepWalkRace(st Step) {
 	}
 	s := w.subs[st.Sub%len(w.subs)]
 	name := targetName(op.T % w.sc.Targets)
-	if s.started || !w.live[name] || w.busy[name] || len(w.parked) > 0 || s.spec.Mode != "stream" {
+	if s.started || !w.live[name] || w.busy[name] || len(w.parked) > 0 {
 		w.st.skippedSteps++
 		return
 	}
@@ -1527,7 +1527,7 @@ func (w *world) stepWalkRace(st Step) {
 		w.g.release(owner)
 		return
 	}
-	if s.regStep < 0 {
+	if s.spec.Mode == "stream" && s.regStep < 0 {
 		// parked in the insertion of the sync marker of an updates_only subscription, which comes before
 		// the registration: a Remove in that window is the case the generator does not schedule (10.2 (v))
 		w.g.release(owner)
@@ -1944,7 +1944,15 @@ func (w *world) checkOncePoll(s *subState, out []sent, drained bool) {
 		return
 	}
 	if rejected {
-		return // NotFound / PermissionDenied / cancelled ...: judged elsewhere
+		// an RPC may end with an error only for a reason the scenario gave it: an unknown target, an ACL
+		// refusal, an invalid request, a cancellation, a send that stayed blocked for the timeout
+		c := status.Code(s.retErr)
+		attributable := s.cancelled || s.timedOut || c == codes.NotFound || c == codes.PermissionDenied || c == codes.Unauthenticated ||
+			c == codes.InvalidArgument || strings.Contains(fmt.Sprint(s.retErr), "timed out")
+		if !attributable {
+			w.failf("C05", "step %d: %s subscription %d (target %s) ended with %v although its request is valid, nobody cancelled it and none of its sends timed out: every request is answered with the matching leaves, a sync response and, for ONCE, success", w.step, s.spec.Mode, s.i, s.target, s.retErr)
+		}
+		return
 	}
 	wantRounds := 1 + s.polls
 	if s.cancelled {
